@@ -85,6 +85,9 @@ pub fn extreme_count_cases() -> Vec<String> {
                 v.push(format!("c{}{}", b, q));
                 v.push(format!("{}{}{}{}", b, q, b, q));
                 v.push(format!("(?:{}{}){{2}}", b, q));
+                v.push(format!("(?:{}{})*", b, q));
+                v.push(format!("(?:{}{})+c", b, q));
+                v.push(format!("({}{})?", b, q));
             }
         }
     }
